@@ -1,7 +1,7 @@
 \* quick, exhaustive: all pairs of submatrix selections on one object (the submatrix cache)
 SPECIFICATION Spec
 CONSTANTS
-  Forms = {"csr"}
+  Forms = {"coo"}
   Shapes <- ShapesSub
   MinNnz = 4
   MaxNnz = 4
@@ -17,6 +17,7 @@ CONSTANTS
   Dtypes = {"f"}
   WildDtypes = {"f"}
   Ops = {"submatrix"}
+  OpForms = {"coo"}
   MaxSteps = 2
   MaxE = 2
   StrictOrder = TRUE
